@@ -42,6 +42,15 @@ def run_shard(args):
         full = rng.random() < 0.6
         F = frozenset(CATS) if full else frozenset(x for x in CATS if rng.random() < 0.5)
         n = rng.choice([2, 2, 3, 4])
+        if c == 0 and args.shard < 3:
+            # regression corpus (shapes of the defects found on the pinned tree)
+            from .. import corpus
+
+            sites = corpus.sites()
+            src, order = program.build(sites, style="rec", tests=4)
+            full, F, n = True, (frozenset(CATS), frozenset({"update"}), frozenset({"create", "fix", "update"}))[args.shard], 3
+            full = args.shard == 0
+            C["corpus_histories"] = C.get("corpus_histories", 0) + 1
         C["programs"] += 1
         files = {"test_a.py": src}
         store = inproc.new_dir("store")
